@@ -143,6 +143,9 @@ def cases(enc):
                                      st.sampled_from(PROVOKERS), gv.modules(enc)),
                            min_size=1, max_size=3),
         "iterval": st.sampled_from([None] * 9 + [0, 1, 2, 3, 4]),
+        # sets as mutable Python sets (what ODLParser returns and what a caller writes
+        # as {1, "a"}) instead of frozensets
+        "thaw": st.sampled_from([False, False, True]),
         "style": st.sampled_from(["instance", "instance-interleaved",
                                   "instance-interleaved", "dumps-fresh",
                                   "dumps-default", "other-encoder-registers",
@@ -150,9 +153,32 @@ def cases(enc):
                                   "new-dumps-between"])})
 
 
+def thaw_sets(x):
+    """Replaces every frozenset below *x* by an equal mutable set (in place)."""
+    from pvl.collections import Quantity
+    def conv(v):
+        if isinstance(v, frozenset):
+            return set(v)
+        if isinstance(v, Quantity) and isinstance(v.value, (frozenset, list)):
+            return Quantity(conv(v.value), v.units)
+        thaw_sets(v)
+        return v
+    if isinstance(x, list):
+        for i, v in enumerate(x):
+            x[i] = conv(v)
+    elif hasattr(x, "getall") and hasattr(x, "insert"):
+        pairs = [(k, conv(v)) for k, v in list(x.items())]
+        if any(a is not b for (_, a), (_, b) in zip(pairs, list(x.items()))):
+            x.clear()
+            x.extend(pairs)
+    return x
+
+
 def run_case(case):
     enc, cfg, style = case["enc"], case["cfg"], case["style"]
     m = gv.build_module(case["spec"])
+    if case.get("thaw"):
+        thaw_sets(m)
     before, ids = snap(m)
     encoder = make_encoder(enc, **cfg)
     unrelated = [gv.build_module(o) for o in case.get("others", [])]
